@@ -6,7 +6,8 @@
 Covered: proto2 / proto3; all 15 scalar types, enum and message fields; required / optional / repeated (proto2),
 implicit / repeated (proto3); [packed=...], [deprecated=true]; oneofs; nested and recursive messages, nested enums;
 a second file in another package (about 30%) whose types are used by the root file; enums with negative, sparse,
-aliased and extreme values; services; keyword / mixed-case field names; sparse and large field numbers; proto2
+aliased and extreme values, value / field / method names that are prefixes of each other or differ in the last
+character; services with 0, 1, 2, 3 or many methods; keyword / mixed-case field names; sparse and large field numbers; proto2
 defaults of every kind; the protobuf-c options (about 40%).
 
 Never emitted (outside the supported set or known to break the plugin): proto3 `optional`, groups, maps,
@@ -44,12 +45,17 @@ FIELD_NAMES = ['int', 'class', 'default', 'union', 'new', 'delete', 'bool', 'reg
                'UPPER_SNAKE', 'snake_case', 'with1digit', 'v2', 'next', 'prev', 'left', 'right', 'child', 'parent',
                'message', 'service', 'option', 'package', 'import', 'syntax', 'repeated', 'optional', 'required',
                'string', 'bytes', 'int32', 'uint64', 'oneof', 'map', 'stream', 'rpc', 'returns', 'extend',
-               'unknown_fields', 'n_unknown', 'base', 'has_more', 'n_items']
+               'unknown_fields', 'n_unknown', 'base', 'has_more', 'n_items',
+               # names that are prefixes of each other or differ in the last character only (by-name lookups)
+               'val', 'valu', 'values', 'item', 'na', 'nam', 'names', 'v1', 'v3', 'ida', 'idb', 'lena', 'lenb',
+               'dat', 'datb', 'y', 'z', 'co', 'coun', 'counts']
 ONEOF_NAMES = ['kind', 'choice', 'variant', 'u', 'testOneof', 'Body', 'sel', 'which', 'alt_form']
 ENUM_VALUE_WORDS = ['ZERO', 'ONE', 'RED', 'GREEN', 'BLUE', 'NONE', 'SOME', 'ALL', 'kFoo', 'lower_val', 'MixedVal',
                     'MIN', 'MAX', 'NEG', 'BIG', 'ALIAS', 'X', 'UNKNOWN', 'OK', 'FAIL']
 METHOD_NAMES = ['Get', 'Put', 'List', 'Remove', 'Update', 'getThing', 'Do_it', 'Ping', 'HTTPFetch', 'a', 'Run',
-                'Stop', 'Watch', 'query', 'Lookup', 'SetX']
+                'Stop', 'Watch', 'query', 'Lookup', 'SetX',
+                # prefixes of each other / last character differs
+                'Ge', 'Gets', 'Puts', 'Lists', 'Rum', 'b', 'Stops', 'Pin', 'SetY', 'Lookuq']
 SERVICE_NAMES = ['Svc', 'Store', 'Echo_service', 'dir', 'RPC1', 'Manager']
 PACKAGES = ['', 'pkg', 'foo.bar', 'Foo.BarBaz', 'a.b.c', 'test_pkg', 'v1']
 DEP_PACKAGES = ['dep', 'other.pkg', 'Lib', 'common.types.v2', 'x_y']
@@ -155,6 +161,7 @@ class Gen:
         self.r = rnd
         self.type_keys = set()          # canonical keys of every message / enum / service name of the case
         self.value_ctr = 0
+        self.value_names = set()
         self.files = []
         self.all_msgs = []              # every Msg of every file
         self.all_enums = []
@@ -173,10 +180,27 @@ class Gen:
         self.type_keys.add(key(n))
         return n
 
-    def fresh_value_name(self):
+    def fresh_value_name(self, siblings=()):
+        """A value name that is new in the whole case.  With some probability it is derived from one of
+        `siblings` (names already in the same enum): that name plus a character, or with its last character
+        changed, so that by-name tables contain prefixes and near misses."""
+        r = self.r
         self.value_ctr += 1
-        w = self.r.choice(ENUM_VALUE_WORDS)
-        return '%s_%d' % (w, self.value_ctr) if self.r.random() < 0.8 else '%s%dv' % (w, self.value_ctr)
+        if siblings and r.random() < 0.3:
+            base = r.choice(list(siblings))
+            cands = [base + r.choice('xX_0'), base[:-1] + r.choice('abyz019'), base + base[-1]]
+            r.shuffle(cands)
+            for n in cands:
+                # protoc compares value names of one enum ignoring case and underscores
+                if key(n) not in self.value_names and n[-1] != '_':
+                    self.value_names.add(key(n))
+                    return n
+        w = r.choice(ENUM_VALUE_WORDS)
+        n = '%s_%d' % (w, self.value_ctr) if r.random() < 0.8 else '%s%dv' % (w, self.value_ctr)
+        while key(n) in self.value_names:
+            n += 'q'
+        self.value_names.add(key(n))
+        return n
 
     # ---------------------------------------------------------------- enums
     def fill_enum(self, e):
@@ -215,7 +239,9 @@ class Gen:
                 nums.remove(first)
                 nums.insert(0, first)
         e.alias = len(set(nums)) != len(nums)
-        e.values = [(self.fresh_value_name(), v) for v in nums]
+        e.values = []
+        for v in nums:
+            e.values.append((self.fresh_value_name([n for n, _ in e.values]), v))
 
     # ---------------------------------------------------------------- skeleton
     def make_msg(self, f, parent, depth):
@@ -487,7 +513,8 @@ class Gen:
             name = self.fresh_type_name(SERVICE_NAMES)
             full = (f.package + '.' if f.package else '') + name
             methods, used = [], set()
-            for _ in range(r.randint(1, 6)):
+            # 0, 1, 2, 3 and many methods: every shape of the binary search over method_indices_by_name
+            for _ in range(r.choice([0, 1, 2, 3, 3, r.randint(4, 9)])):
                 for _ in range(50):
                     mn = r.choice(METHOD_NAMES)
                     if key(mn) not in used and camel_lower(mn) not in DENY_METHOD_KEYS:
